@@ -18,10 +18,10 @@ from props import c09_util as U9
 PROP = "C09"
 LEVEL = "proof"
 GEN_UNITS = []
-COQ_TARGETS = ["Props/C09.vo", "Model/C09Exec.vo", "Model/Harness.vo"]
+COQ_TARGETS = ["Props/C09.vo", "Model/C09Exec.vo", "Model/C09Init.vo", "Model/Harness.vo"]
 THEOREM_FILES = ["Props/C09.v"]
 COQ_IMPORTS = ("From Coq Require Import List ZArith QArith Qcanon Bool.\n"
-               "From PV Require Import Base.Index Np.Array Model.Sparse Model.Repr Model.Harness Model.C09Als Model.C09Exec.\n")
+               "From PV Require Import Base.Index Np.Array Model.Sparse Model.Repr Model.Harness Model.C09Als Model.C09Exec Model.C09Init.\n")
 RULE = ("integer data tensors 3x3x2 .. 4x3x2, 2-way and 4-way (<= 24 entries) held as dense / sparse (3 stored orders) / Tucker / "
         "sum tensors; ranks 1-2; given integer starts (with and without weights), seeded random starts and init='nvecs' (dense / sparse / "
         "Tucker data); PLANTED rank-3 (3x3x3, 4x3x3, 3x4x3) and rank-4 (4x4x4) problems = exact integer Kruskal structure + small integer "
@@ -31,7 +31,15 @@ RULE = ("integer data tensors 3x3x2 .. 4x3x2, 2-way and 4-way (<= 24 entries) he
         "Tucker (superdiagonal core) / sum (Kruskal part + sparse noise part) data, maxiters 1-2; printitn 0 (mostly) or 1-2; every mode order, "
         "optdims subsets; maxiters 1..3 from the same start (truncated runs = per-iteration trace); stoptol in {0, 1e-4, 0.05, 0.5}; "
         "fixsigns on/off; data whose unfoldings all have exact rank >= the requested rank (Fractions), or all-zero data; non-trivial = data not all-equal; distinct = distinct (op,args). Cases whose exact Gram-Hadamard matrix has "
-        "|det|/prod(diag) < 1e-3 in the first exact sweep are skipped (ill-conditioned: float drift, not a defect). Tolerance 1e-6 relative.")
+        "|det|/prod(diag) < 1e-3 in the first exact sweep are skipped (ill-conditioned: float drift, not a defect; a LinAlgError on such a start "
+        "is skipped too). Tolerance 1e-6 relative. Wave 3: every holder class (sum tensors with dense / sparse / Kruskal / Tucker parts) with its "
+        "stored arrays re-assigned C-ordered or as non-contiguous views, starts with C-ordered / non-contiguous factor matrices; data multiplied "
+        "by 2^k (k = -30..40; observations mapped back exactly before the recomputation); very sparse data (1-5 entries confined to half of a "
+        "mode, negative values, stored zeros), an empty sptensor, rank 1 with 2-3 silent sweeps; 4-way data on every holder; non-identity "
+        "dimorder x proper optdims subsets (requested order ending with a non-optimised mode); maxiters 0 (every holder, dimorder / optdims / "
+        "printitn 0,1,3 / fixsigns off / negative start weights) and 1; printitn in {0,1,2,3,5,7}; EVERY run repeated on the same data object "
+        "with the returned guess object as explicit start (identical model / fit / residual / iters / guess required); seeded starts compared "
+        "in Coq with the captured-stream model init_random.")
 TOL = "tol6"
 SHARD = 2
 COND_MIN = F(1, 1000)
@@ -65,6 +73,20 @@ def _data_spec(rng, kind, shape):
             return {"kind": "dense", "shape": shape, "data": data}
         subs, vals = tgen.dense_to_sparse(shape, data, rng, rng.choice(["sorted", "reversed", "random"]))
         return {"kind": "sparse", "shape": shape, "subs": subs, "vals": vals}
+    if kind == "vsparse":
+        # very sparse data: entries confined to at most half of the subscripts of one mode (sptensor.ttv keeps the MTTKRP column sparse
+        # there: the <= 50 % switch), mostly negative values, optionally an explicitly stored zero
+        m = rng.randrange(len(shape))
+        keep = rng.sample(range(shape[m]), max(1, shape[m] // 2))
+        cand = [i for i in U9.all_subs(shape) if i[m] in keep]
+        k = rng.randint(1, max(1, min(len(cand), 5)))
+        subs = rng.sample(cand, k)
+        vals = [rng.choice([-3, -2, -1, -1, 1, 2]) for _ in subs]
+        if rng.random() < 0.3:
+            rest = [i for i in U9.all_subs(shape) if i not in subs]
+            subs.append(rng.choice(rest))
+            vals.append(0)                                   # a stored zero handed to the plain constructor
+        return {"kind": "sparse", "shape": shape, "subs": subs, "vals": vals}
     if kind == "ttensor":
         cs = [min(2, d) for d in shape]
         core = tgen.rand_dense(rng, cs, 0.8, lo=-2, hi=3)
@@ -72,7 +94,7 @@ def _data_spec(rng, kind, shape):
         return {"kind": "ttensor", "shape": shape, "core_shape": cs, "core": core, "factors": fs}
     if kind == "sum":
         p1 = _data_spec(rng, "dense", shape)
-        p2 = _data_spec(rng, rng.choice(["sparse", "ktensor"]), shape)
+        p2 = _data_spec(rng, rng.choice(["sparse", "ktensor", "ttensor", "vsparse"]), shape)
         return {"kind": "sum", "shape": shape, "parts": [p1, p2]}
     if kind == "ktensor":
         return {"kind": "ktensor", "shape": shape, "weights": [rng.randint(1, 2)],
@@ -141,6 +163,33 @@ def _planted(rng, shape, R, target, kind, mode_order=None):
     return None
 
 
+def _unit_factors(rng, shape, R):
+    """factor matrices whose columns are signed unit vectors (+-e_i, distinct rows): a start that is ALREADY column-normalised, so that
+    only the sign repair / sorting part of the final arrange has work to do; None if some mode is smaller than R"""
+    if any(d < R for d in shape):
+        return None
+    fs = []
+    for d in shape:
+        rows = rng.sample(range(d), R)
+        A = [[0] * R for _ in range(d)]
+        for r, i in enumerate(rows):
+            A[i][r] = rng.choice([1, -1])
+        fs.append(A)
+    return fs
+
+
+def _variant(rng, p):
+    """with probability p: a non-default memory layout of the data / the start and / or a power-of-two data scale"""
+    ex = {}
+    if rng.random() < p:
+        ex["layout"] = rng.choice(["C", "view"])
+    if rng.random() < p:
+        ex["init_layout"] = rng.choice(["C", "view"])
+    if rng.random() < p / 2:
+        ex["scale_exp"] = rng.choice([-20, -10, 10, 20])
+    return ex
+
+
 def gen_cases(rng, tier):
     big = tier == "thorough"
     cases = []
@@ -168,7 +217,7 @@ def gen_cases(rng, tier):
             init = {"w": [1] * R, "f": _rand_factors(rng, shape, R)}
             add(spec, R, init, list(perm), None, [1, 2, 3], rng.choice([0.0, 1e-4]), rng.random() < 0.5)
     # random stream
-    for _ in range(900 if big else 44):
+    for _ in range(900 if big else 34):
         kind = rng.choice(kinds)
         shape = rng.choice(SHAPES3 if rng.random() < 0.75 else SHAPES_OTHER)
         N = len(shape)
@@ -187,9 +236,59 @@ def gen_cases(rng, tier):
         optdims = None
         if rng.random() < 0.3 and N >= 2:
             k = rng.randint(1, N - 1)
-            optdims = sorted(rng.sample(range(N), k))
+            optdims = rng.sample(range(N), k)                        # any order (optdims is a set of modes)
         add(spec, R, init, dimorder, optdims, [1, 2, 3], rng.choice([0.0, 1e-4, 0.05, 0.5]), rng.random() < 0.6,
-            printitn=rng.choice([0, 0, 0, 1, 2]))
+            printitn=rng.choice([0, 0, 0, 1, 2, 3, 7]), extra=_variant(rng, 0.35))
+    # ---- wave 3: input classes named in README-wave3 ----
+    # (i) memory layout: every holder class (sum and Tucker included) with C-ordered / non-contiguous stored arrays, and starts whose
+    #     factor matrices are C-ordered / non-contiguous views (assigned after construction, as a user may do)
+    for kind in kinds + ["vsparse"]:
+        for lay in (["C", "view"] if big or kind in ("ttensor", "sum") else [rng.choice(["C", "view"])]):
+            shape = rng.choice(SHAPES3 + [[2, 3, 2, 2]])
+            R = 1 if kind == "vsparse" else rng.choice([1, 2])
+            add(_data_spec(rng, kind, shape), R, {"w": [1] * R, "f": _rand_factors(rng, shape, R)},
+                rng.sample(range(len(shape)), len(shape)), None, [1, 2], 0.0, rng.random() < 0.5,
+                extra={"layout": lay, "init_layout": rng.choice(["C", "view"])})
+    # 4-way data on every holder whose mttkrp has mode-dependent branches (two or more modes to the left of an interior mode)
+    for kind in (kinds if big else ["dense", rng.choice(["sparse", "ttensor", "sum"])]):
+        shape = rng.choice([[2, 3, 2, 2], [2, 2, 3, 2]])
+        R = rng.choice([1, 2])
+        add(_data_spec(rng, kind, shape), R, {"w": [1] * R, "f": _rand_factors(rng, shape, R)},
+            None if rng.random() < 0.5 else rng.sample(range(4), 4), None, [1, 2], 0.0, rng.random() < 0.5)
+    # (ii) non-identity dimorder together with a proper subset of optimised modes: the mode updated last is the last OPTIMISED mode
+    #      of the order; half of the cases end the requested order with a mode that is not optimised
+    for rep_ in range(12 if big else 4):
+        shape = rng.choice(SHAPES3)
+        R = rng.choice([1, 2])
+        perm = rng.choice([q for q in itertools.permutations(range(3)) if list(q) != [0, 1, 2]])
+        k = rng.choice([1, 2])
+        od = rng.sample(list(perm[:-1]) if rep_ % 2 == 0 else list(perm), k)
+        add(_data_spec(rng, kinds[rep_ % 4], shape), R, {"w": [rng.choice([1, 2, -3]) for _ in range(R)], "f": _rand_factors(rng, shape, R, -3, 3)},
+            list(perm), od, [1, 2, 3], rng.choice([0.0, 1e-4]), rng.random() < 0.5, printitn=rng.choice([0, 0, 2]))
+    # (iii) magnitudes: the same integer problems with the data multiplied by 2^k (exact in binary floating point); the returned
+    #       weights / residual norm are divided by 2^k before the exact recomputation, so the tolerance stays relative
+    for rep_, k in enumerate([-20, 20, -7, 23, -30, 40] if big else [-20, 20]):
+        for kind in (kinds if big else [kinds[rep_ % 4], kinds[(rep_ + 2) % 4]]):
+            shape = rng.choice(SHAPES3)
+            R = rng.choice([1, 2])
+            init = {"w": [1] * R, "f": _rand_factors(rng, shape, R)} if rng.random() < 0.7 else {"seed": rng.randrange(1000)}
+            add(_data_spec(rng, kind, shape), R, init, None if rng.random() < 0.5 else rng.sample(range(3), 3), None, [1, 2, 3],
+                rng.choice([0.0, 1e-4]), rng.random() < 0.5, printitn=rng.choice([0, 0, 1]), extra={"scale_exp": k})
+    # (iv) degenerate sparse operands: no stored entry, one entry, few entries confined to half of a mode (rank 1 is admissible for any
+    #      non-zero data), singleton modes; rank-1 runs with >= 2 silent sweeps
+    add({"kind": "sparse", "shape": [3, 2, 2], "subs": [], "vals": []}, 1, {"w": [1], "f": _rand_factors(rng, [3, 2, 2], 1)}, None, None,
+        [1, 2], 1e-4, True)
+    for rep_ in range(16 if big else 5):
+        shape = rng.choice([[4, 3, 2], [2, 4, 3], [4, 4, 2], [3, 1, 4], [5, 2, 2]])
+        init = {"w": [1], "f": _rand_factors(rng, shape, 1, -2, 3)} if rng.random() < 0.7 else {"seed": rng.randrange(1000)}
+        add(_data_spec(rng, "vsparse", shape), 1, init, None if rng.random() < 0.5 else rng.sample(range(3), 3), None, [1, 2, 3],
+            0.0, rng.random() < 0.5, printitn=0, extra=_variant(rng, 0.3))
+    # (v) option corners: maxiters = 1 only, printing intervals beyond the limit, fixsigns off, on every holder
+    for kind in kinds:
+        shape = rng.choice(SHAPES3)
+        R = rng.choice([1, 2])
+        add(_data_spec(rng, kind, shape), R, {"w": [rng.choice([2, 3, -1]) for _ in range(R)], "f": _rand_factors(rng, shape, R)},
+            None, None, [1], 1e-4, False, printitn=rng.choice([0, 1, 5]))
     # init="nvecs" on every admissible data kind (quick tier: one each)
     for kind in ["dense", "sparse", "ttensor"]:
         for _ in range(6 if big else 1):
@@ -230,14 +329,27 @@ def gen_cases(rng, tier):
     kt = {"kind": "ktensor", "shape": [3, 3, 2], "weights": [2], "factors": [[[1], [2], [-1]], [[1], [0], [3]], [[2], [1]]]}
     add({"kind": "dense", "shape": [3, 3, 2], "data": U9.dense_of(kt)}, 1, {"w": [1], "f": _rand_factors(rng, [3, 3, 2], 1, 1, 3)},
         None, None, [1, 2, 3], 1e-4, True)
-    for kind in (["dense", "sparse"] if not big else kinds):
+    for kind in (kinds if not big else kinds + kinds + ["vsparse"]):
         shape = rng.choice(SHAPES3)
         spec = _data_spec(rng, kind, shape)
         Rz = rng.choice([1, 2])
-        cases.append(Case("cp_als_maxiters0", {"data": spec, "rank": Rz, "init": {"w": [rng.choice([1, 2, 3]) for _ in range(Rz)],
-                                                                                   "f": _rand_factors(rng, shape, Rz)},
-                                               "dimorder": None, "optdims": None, "maxiters": [0], "stoptol": 1e-4, "fixsigns": True,
-                                               "printitn": rng.choice([0, 1])}, True))
+        a0 = {"data": spec, "rank": Rz, "init": {"w": [rng.choice([1, 2, 3, -2]) for _ in range(Rz)], "f": _rand_factors(rng, shape, Rz)},
+              "dimorder": None if rng.random() < 0.5 else rng.sample(range(3), 3),
+              "optdims": None if rng.random() < 0.6 else rng.sample(range(3), 2), "maxiters": [0], "stoptol": 1e-4,
+              "fixsigns": rng.random() < 0.6, "printitn": rng.choice([0, 1, 3])}
+        a0.update(_variant(rng, 0.4))
+        a0.pop("scale_exp", None)            # the model of the start does not scale with the data
+        cases.append(Case("cp_als_maxiters0", a0, True))
+        # the same request from a start that is already column-normalised (signed unit vectors) but has negative / unsorted weights:
+        # the returned model must still be in normal form (sign repair and sort are all the final arrange has to do)
+        uf = _unit_factors(rng, shape, Rz)
+        if uf is not None:
+            a1 = dict(a0)
+            w1 = [rng.choice([-3, -2, 2, 5]) for _ in range(Rz)]
+            w1[rng.randrange(Rz)] = -rng.choice([1, 4])
+            a1["init"] = {"w": w1, "f": uf}
+            a1["fixsigns"] = not a0["fixsigns"]
+            cases.append(Case("cp_als_maxiters0", a1, True))
     return cases
 
 
@@ -272,13 +384,72 @@ class _Recorder:
         return self._inner.nvecs(n, r)
 
 
+def _relayout_arr(np, arr, layout):
+    """the same logical array in another memory layout: C-contiguous, or a non-contiguous view (every second element of a larger
+    C-ordered buffer along every axis)"""
+    arr = np.asarray(arr)
+    if layout == "C":
+        return np.array(arr, order="C", copy=True)
+    if layout == "view":
+        big = np.full(tuple(2 * d + 1 for d in arr.shape), 7, dtype=arr.dtype, order="C")
+        sl = tuple(slice(0, 2 * d, 2) for d in arr.shape)
+        big[sl] = arr
+        return big[sl]
+    return arr
+
+
+def _relayout(np, ttb, X, layout):
+    """re-assign the stored arrays of a holder (values unchanged) in the given memory layout, as a user may do after construction"""
+    if layout in (None, "F"):
+        return X
+    if isinstance(X, ttb.tensor):
+        X.data = _relayout_arr(np, X.data, layout)
+    elif isinstance(X, ttb.sptensor):
+        X.subs = _relayout_arr(np, X.subs, layout)
+        X.vals = _relayout_arr(np, X.vals, layout)
+    elif isinstance(X, ttb.ttensor):
+        _relayout(np, ttb, X.core, layout)
+        X.factor_matrices = [_relayout_arr(np, f, layout) for f in X.factor_matrices]
+    elif isinstance(X, ttb.ktensor):
+        X.factor_matrices = [_relayout_arr(np, f, layout) for f in X.factor_matrices]
+        X.weights = _relayout_arr(np, X.weights, layout)
+    elif isinstance(X, ttb.sumtensor):
+        for part in X.parts:
+            _relayout(np, ttb, part, layout)
+    return X
+
+
+def _scaled_spec(spec, c):
+    """the data spec with every value multiplied by the float c (a power of two: exact)"""
+    kind = spec["kind"]
+    out = dict(spec)
+    if kind == "dense":
+        out["data"] = [c * v for v in spec["data"]]
+    elif kind == "sparse":
+        out["vals"] = [c * v for v in spec["vals"]]
+    elif kind == "ttensor":
+        out["core"] = [c * v for v in spec["core"]]
+    elif kind == "ktensor":
+        out["weights"] = [c * v for v in spec["weights"]]
+    elif kind == "sum":
+        out["parts"] = [_scaled_spec(q, c) for q in spec["parts"]]
+    return out
+
+
+def _mk_data(ttb, np, a):
+    k = int(a.get("scale_exp", 0))
+    spec = a["data"] if k == 0 else _scaled_spec(a["data"], 2.0 ** k)
+    return _relayout(np, ttb, U9.mk_data(ttb, np, spec), a.get("layout"))
+
+
 def _mk_init(ttb, np, a):
     i = a["init"]
-    return ttb.ktensor([np.array(f, dtype=float) for f in i["f"]], np.array(i["w"], dtype=float), copy=True)
+    K = ttb.ktensor([np.array(f, dtype=float) for f in i["f"]], np.array(i["w"], dtype=float), copy=True)
+    return _relayout(np, ttb, K, a.get("init_layout"))
 
 
 def _one_run(ttb, np, a, m, record=False):
-    X = U9.mk_data(ttb, np, a["data"])
+    X = _mk_data(ttb, np, a)
     before = U9.obs_data(np, ttb, X)
     kw = dict(stoptol=a["stoptol"], maxiters=m, printitn=int(a.get("printitn", 0)), fixsigns=a["fixsigns"])
     if a["dimorder"] is not None:
@@ -304,19 +475,25 @@ def _one_run(ttb, np, a, m, record=False):
     if given is not None:
         o["given_after"] = tgen.obs_ktensor(np, given)
         o["init_is_given"] = Minit is given
-    else:
-        if "seed" in a["init"]:
-            # what the documented procedure draws under this seed
-            np.random.seed(a["init"]["seed"])
-            o["expected_init"] = [tgen.obs_matrix(np, np.random.uniform(0, 1, (d, a["rank"]))) for d in a["data"]["shape"]]
-        # the returned guess, supplied again as an explicit start, must reproduce the run
-        X2 = U9.mk_data(ttb, np, a["data"])
-        kw2 = dict(kw)
-        kw2["init"] = Minit.copy()
-        with contextlib.redirect_stdout(io.StringIO()):
-            M2, _, out2 = ttb.cp_als(X2, a["rank"], **kw2)
-        o["rerun"] = tgen.obs_ktensor(np, M2)
-        o["rerun_fit"] = tgen.exact(out2["fit"])
+    elif "seed" in a["init"]:
+        # what the documented procedure draws under this seed
+        np.random.seed(a["init"]["seed"])
+        o["expected_init"] = [tgen.obs_matrix(np, np.random.uniform(0, 1, (d, a["rank"]))) for d in a["data"]["shape"]]
+        # the generator's output captured as ONE flat stream (for the stream model Model/C09Init.v, theorem C09_init_random_entry)
+        np.random.seed(a["init"]["seed"])
+        o["stream"] = [tgen.exact(x) for x in np.random.uniform(0, 1, sum(a["data"]["shape"]) * a["rank"] + 3)]
+    # second call on the SAME data object with the RETURNED guess object as explicit start: must reproduce the run (the returned guess
+    # is the one used; nothing was written to the data, the guess or hidden state by the first call)
+    kw2 = dict(kw)
+    kw2["init"] = Minit
+    with contextlib.redirect_stdout(io.StringIO()):
+        M2, Minit2, out2 = ttb.cp_als(X, a["rank"], **kw2)
+    o["rerun"] = tgen.obs_ktensor(np, M2)
+    o["rerun_fit"] = tgen.exact(out2["fit"])
+    o["rerun_normres"] = tgen.exact(out2["normresidual"])
+    o["rerun_iters"] = int(out2["iters"])
+    o["rerun_init"] = tgen.obs_ktensor(np, Minit2)
+    o["data_same"] = o["data_same"] and U9.obs_data(np, ttb, X) == before
     if record:
         rec = []
         for n, Us in target.calls:
@@ -372,6 +549,52 @@ def _numeric(k):
     return all(not isinstance(v, str) for v in vals)
 
 
+def _descaled(a, o):
+    """observations of a run on data multiplied by 2^k, mapped back to the unscaled integer problem (exact Fractions): weights and
+    residual norm / 2^k (sum-tensor data: the reported ||M||^2 - 2<X,M> / 4^k), certificate hints / 2^k; factors, fit, counts unchanged"""
+    k = int(a.get("scale_exp", 0))
+    if k == 0 or "exc" in o:
+        return o
+    c = F(2) ** k
+    is_sum = a["data"]["kind"] == "sum"
+
+    def dv(x, by):
+        return x if isinstance(x, str) else F(x) / by
+
+    out = {"runs": []}
+    for r in o["runs"]:
+        r = dict(r)
+        for key in ("model", "rerun"):
+            if key in r:
+                r[key] = {"weights": [dv(w, c) for w in r[key]["weights"]], "factors": r[key]["factors"]}
+        for key in ("normres", "rerun_normres"):
+            if key in r:
+                r[key] = dv(r[key], c * c if is_sum else c)
+        if is_sum:
+            for key in ("fit", "rerun_fit"):
+                if key in r:
+                    r[key] = dv(r[key], c * c)
+        if "hints" in r:
+            r["hints"] = [None if w is None else [F(x) / c for x in w] for w in r["hints"]]
+        out["runs"].append(r)
+    return out
+
+
+def _eff_stoptol(a):
+    """the stopping tolerance in the units of the descaled trace: the fit is scale-free except for sum-tensor data, whose reported
+    ||M||^2 - 2<X,M> scales with 4^k"""
+    k = int(a.get("scale_exp", 0))
+    if k != 0 and a["data"]["kind"] == "sum":
+        return F(a["stoptol"]) / (F(2) ** (2 * k))
+    return F(a["stoptol"])
+
+
+def _rerun_same(r):
+    """the second call (same data object, returned guess object as explicit start) reproduces the first one exactly"""
+    return (r["rerun"] == r["model"] and r["rerun_fit"] == r["fit"] and r["rerun_normres"] == r["normres"]
+            and r["rerun_iters"] == r["iters"] and r["rerun_init"] == r["init"])
+
+
 def _reference(a):
     """exact first sweep (pure Python): (conditioning ratio, ok)"""
     shape = a["data"]["shape"]
@@ -384,6 +607,7 @@ def _reference(a):
 
 def coq_check(c, o):
     a = c.args
+    o = _descaled(a, o)
     if c.op == "cp_als_maxiters0":
         # maxiters = 0 is an admissible limit (theorem C09_maxiters0): no sweep; the returned model is the arranged start WITH its
         # weights, iters = 0, the report is the fit of that model, the start comes back untouched
@@ -397,19 +621,20 @@ def coq_check(c, o):
         fitfn = "fit_ok_sum" if a["data"]["kind"] == "sum" else "fit_ok"
         same = (r["iters"] == 0 and r["data_same"] and r["shape"] == a["data"]["shape"]
                 and r["init"]["factors"] == a["init"]["f"] and r["init"]["weights"] == a["init"]["w"]
-                and r["given_after"]["factors"] == a["init"]["f"] and r["given_after"]["weights"] == a["init"]["w"])
+                and r["given_after"]["factors"] == a["init"]["f"] and r["given_after"]["weights"] == a["init"]["w"]
+                and _rerun_same(r))
         return (f"let s := {gnlist(a['data']['shape'])} in let X := memo s {U9.gxden(a['data'])} in let K := {K} in "
                 f"k_shape_ok s {a['rank']} K && {fitfn} {TOL} s X K {gq(r['normres'])} {gq(r['fit'])} && normal_form_ok {TOL} K && "
                 f"den_close {TOL} s (qden_k K) (qden_k {K0}) && {gbool(same)}")
+    ref = _reference(a)
+    if ref is not None and (not ref[2] or ref[1] < COND_MIN) and ("exc" not in o or o["exc"] == "LinAlgError"):
+        return None                      # ill-conditioned / singular in exact arithmetic (numpy may raise LinAlgError): skipped deterministically
     if "exc" in o:
         return "false"
     shape = a["data"]["shape"]
     R = a["rank"]
     dims = _dims(a)
     nlast = dims[-1]
-    ref = _reference(a)
-    if ref is not None and (not ref[2] or ref[1] < COND_MIN):
-        return None                      # ill-conditioned / singular in exact arithmetic: skipped deterministically
     is_sum = a["data"]["kind"] == "sum"
     parts = []
     sh = gnlist(shape)
@@ -428,22 +653,24 @@ def coq_check(c, o):
         if "seed" in a["init"]:
             exp = r["expected_init"]
             parts.append(gbool(r["init"]["factors"] == exp and all(w == 1 for w in r["init"]["weights"])))
-            parts.append(gbool(r["rerun"] == r["model"] and r["rerun_fit"] == r["fit"]))
+            if r is o["runs"][0] and _numeric(r["init"]):
+                # the returned guess IS the start of the captured-stream model: modes in the order 0..N-1, row-major, unit weights
+                parts.append(f"qk_eqb (init_random q1 s {R} {U9.gqrow(r['stream'])}) {U9.gqk(r['init']['weights'], r['init']['factors'])}")
         elif "nvecs" in a["init"]:
             # the returned guess has unit weights and the right shape and, supplied again as an explicit start, reproduces the run
             parts.append(gbool(all(w == 1 for w in r["init"]["weights"]) and [len(f) for f in r["init"]["factors"]] == shape
                                and all(len(row) == R for f in r["init"]["factors"] for row in f)))
-            parts.append(gbool(r["rerun"] == r["model"] and r["rerun_fit"] == r["fit"]))
         else:
             parts.append(gbool(r["init"]["factors"] == a["init"]["f"] and r["init"]["weights"] == a["init"]["w"]
                                and r["given_after"]["factors"] == a["init"]["f"] and r["given_after"]["weights"] == a["init"]["w"]))
+        parts.append(gbool(_rerun_same(r)))
     # monotone trace
     fl = "[" + "; ".join(gq(f) for f in fits) + "]"
     parts.append(f"nonincreasing {TOL} {fl}" if is_sum else f"nondecreasing {TOL} {fl}")
     # iteration count / stop rule
     its = "[" + "; ".join(str(r["iters"]) for r in o["runs"]) + "]%nat"
     ms = "[" + "; ".join(str(r["m"]) for r in o["runs"]) + "]%nat"
-    parts.append(f"iters_ok {gq(F(a['stoptol']))} {fl} {ms} {its}")
+    parts.append(f"iters_ok {gq(_eff_stoptol(a))} {fl} {ms} {its}")
     # exact model: first sweep from the given start
     if ref is not None and o["runs"][0]["m"] == 1 and (R <= 2 or (R == 3 and a["data"]["kind"] in ("dense", "sparse"))):
         # (for rank >= 3 on Tucker / sum data and rank 4 the exact Gauss-Jordan sweep in Qc costs 10-90 s and is redundant with the
@@ -477,7 +704,11 @@ def oracle(c, o):
     """independent evaluation of the property on pyttb's own output (pure Python, Fractions, all subscripts)"""
     a = c.args
     if "exc" in o:
+        ref = _reference(a) if c.op == "cp_als" else None
+        if o["exc"] == "LinAlgError" and ref is not None and (not ref[2] or ref[1] < COND_MIN):
+            return None                  # the exact sweep from this start is singular as well: outside the rank condition
         return f"admissible request raised {o['exc']}: {o.get('msg')}"
+    o = _descaled(a, o)
     shape = a["data"]["shape"]
     X = [F(x) for x in U9.dense_of(a["data"])]
     R = a["rank"]
@@ -486,7 +717,7 @@ def oracle(c, o):
     prev = None
     fits = [r["fit"] for r in o["runs"]]
     if all(not isinstance(f, str) for f in fits) and [r["m"] for r in o["runs"]] == list(range(1, len(fits) + 1)):
-        stol = F(a["stoptol"])
+        stol = _eff_stoptol(a)
         for r in o["runs"]:
             exp = r["m"] - 1
             for kk in range(1, r["m"]):
@@ -543,8 +774,9 @@ def oracle(c, o):
                 return "the caller's initial guess was modified by the call"
             if r["init"]["factors"] != a["init"]["f"] or r["init"]["weights"] != a["init"]["w"]:
                 return "the returned initial guess is not the guess that was supplied / used"
-        elif "rerun" in r and (r["rerun"] != r["model"] or r["rerun_fit"] != r["fit"]):
-            return "the returned initial guess, supplied again as an explicit start, does not reproduce the run"
+        if "rerun" in r and not _rerun_same(r):
+            return ("a second call on the same data object with the returned initial guess as explicit start does not reproduce the run "
+                    "(the returned guess is not the one used, or the first call left a trace in the data / guess / hidden state)")
         if r.get("rec") and r["rec"][0]["U"] != r["init"]["factors"]:
             return "the returned initial guess is not the one actually used: the first mttkrp call received different factor matrices"
         # normal equations of the mode updated last
@@ -588,10 +820,13 @@ def _wit_nvecs_sparse():
 
 
 WITNESSES = {"C09-NVECS-SPARSE": _wit_nvecs_sparse}
-CORRESPONDENCE_ONLY = ["ktensor.fixsigns inside cp_als (denotation: C08; unit columns after sign fixing checked on outputs)",
-                       "numpy's norm / argsort meeting the oracle contracts of C09_normal_form (normal form checked on every sampled output)",
-                       "init='random' draw order", "init='nvecs' (returned guess = guess used; the vectors themselves are C14's)",
-                       "tensor/sptensor/ttensor/sumtensor.mttkrp, innerprod, norm (through the certificates)"]
+CORRESPONDENCE_ONLY = ["numpy's norm / argsort meeting the oracle contracts of C09_normal_form (normal form checked on every sampled output)",
+                       "numpy.random.uniform delivering one sequential stream (init='random' itself is proved over a captured stream: "
+                       "C09_init_random_*; the returned guess is compared in Coq with init_random of the captured stream)",
+                       "init='nvecs' (returned guess = guess used; the vectors themselves are C14's)",
+                       "ttensor.mttkrp (no algorithm model in C02), innerprod / norm of every holder, LAPACK solve meeting A.Y = P "
+                       "(through the certificates); tensor / sptensor / ktensor / sumtensor.mttkrp are PROVED (C02 algorithm models, "
+                       "bridged by C09_holder_*)"]
 ASSUMPTIONS = ["IEEE-754 rounding, LAPACK solve, sqrt and numpy.random are oracles: theorems are exact-arithmetic; real runs are sampled",
                "tolerance 1e-6 relative for the exact recomputation of sampled runs; ill-conditioned cases skipped (exact rule in RULE)"]
 EXPLANATION = ("PARTIAL: the for-all-inputs part is carried by exact-arithmetic theorems about the CP-ALS model; pyttb's real runs are "
